@@ -5,8 +5,8 @@ import json
 import glob
 import os
 
-KEYS = ["a", "b", "c", "foo", "bar", "baz", "id", "name", "x", "y", "k1", "é", "with space", "a.b", "0", ""]
-IDENTS = ["a", "b", "c", "foo", "bar", "baz", "id", "name", "x", "y", "k1", "_u", "A1"]
+KEYS = ["a", "b", "c", "foo", "bar", "baz", "id", "name", "x", "y", "k1", "é", "with space", "a.b", "0", "", "null", "true", "length", "\r\n", "a\"b"]
+IDENTS = ["a", "b", "c", "foo", "bar", "baz", "id", "name", "x", "y", "k1", "_u", "A1", "null", "true", "length", "not"]
 BUILTINS = ["abs", "avg", "ceil", "contains", "ends_with", "floor", "join", "keys", "length", "map", "min", "max",
             "max_by", "min_by", "merge", "not_null", "reverse", "sort", "sort_by", "starts_with", "sum", "to_array",
             "to_number", "to_string", "type", "values"]
